@@ -71,6 +71,37 @@ func (x *Exec) bumpPrefix(st *State, prefix string) {
 	st.defs = nd
 }
 
+// bumpPrefixFrame: like bumpPrefix, but the new defaults agree with the previous ones on
+// every reference up to frameAlloc (a callee that writes only fresh objects).
+func (x *Exec) bumpPrefixFrame(st *State, prefix string, frameAlloc Term) {
+	x.bumpPrefix(st, prefix)
+	if x.genFrames == nil {
+		x.genFrames = map[int]Term{}
+	}
+	x.genFrames[x.epochCtr] = frameAlloc
+}
+
+// defaultTerm names the not-yet-accessed array for key under source d, considering only
+// generations below the given one, and links framed generations to their predecessor.
+func (x *Exec) defaultTerm(d defSrc, key string, sort Sort, below int) Term {
+	g := 0
+	for p, n := range d.gen {
+		if strings.HasPrefix(key, p) && n > g && n < below {
+			g = n
+		}
+	}
+	t := x.c.Const(fmt.Sprintf("H%d.%d|%s", d.epoch, g, key), sort)
+	if fa, ok := x.genFrames[g]; ok && g > 0 {
+		prev := x.defaultTerm(d, key, sort, g)
+		if !x.c.seen["genframe:"+t.S] {
+			x.c.seen["genframe:"+t.S] = true
+			f := fmt.Sprintf("(forall ((r Int)) (! (=> (<= r %s) (= (select %s r) (select %s r))) :pattern ((select %s r))))", fa.S, t.S, prev.S, t.S)
+			x.c.AddFactAbout(t.S, tTrue, Term{S: f, Sort: SBool, N: 12, UB: -1}, "frame: callee allocates only fresh objects in "+key)
+		}
+	}
+	return t
+}
+
 // bumped reports the prefixes whose defaults differ from those of the other state.
 func bumpedPrefixes(now, then *State) (prefixes []string, all bool) {
 	base := then.defs[0]
@@ -144,6 +175,7 @@ type Exec struct {
 	rootLocs []*LocV
 	rootLocsDone bool
 	exitPos  token.Pos
+	genFrames map[int]Term // default-array generations created by fresh-only callees: old allocation counter
 }
 
 type candidate struct {
@@ -687,7 +719,7 @@ func (x *Exec) heapGet(st *State, key string, sort Sort) Term {
 	var t Term
 	for i := len(st.defs) - 1; i >= 0; i-- {
 		d := st.defs[i]
-		ct := x.c.Const(d.nameFor(key), sort)
+		ct := x.defaultTerm(d, key, sort, 1<<62)
 		if i == len(st.defs)-1 {
 			t = ct
 		} else {
